@@ -483,17 +483,21 @@ func c01Const(c *Ctx, rule string) {
 
 const c02Explanation = "Static analysis of the decoders: (OWN, SSA origin tracing) every value stored into a []byte or string field of a decoded packet is fresh (make+copy, or a []byte→string conversion), never a sub-slice of the input buffer and never produced through unsafe; unsafe is used only by packet.cast, whose callers are write helpers; " +
 	"(ADMIT) for every valuation (topic empty/non-empty, QoS) under which Publish.Encode / Connect.Encode(will) has no success path, the decoder has none either (an admitted application message can be re-encoded); (EXTENT) after decodeHeader every decoder confines its reads to the header-declared extent (buffer re-sliced to hl+rl, or a constant number of bytes after rl was compared with that constant, or a loop bounded by rl); (INTBOUNDS) slice bounds in package packet are computed in int. " +
-	"Panic-freedom / no over-read for all byte strings (needs value-range reasoning) and accept-equivalence with a reference decoder are not decided."
+	"(BOUNDS/CONSUMED/TERMINATES, LIN engine: relational abstract interpretation over linear inequalities with callee summaries, inductive loop invariants and Fourier–Motzkin refutation) for EVERY input buffer: no index, slice, make/Grow size or encoding/binary precondition reachable from a Decode method, DetectPacket or Decoder.Read can be out of range, every Decode returns 0 <= n <= len(src) on success and on error, and every loop there has a linear ranking function. " +
+	"Accept-equivalence with a reference decoder is not decided."
 
 func propC02(c *Ctx) string {
 	c02Own(c)
 	c02Admit(c, "C02/ADMIT")
 	c02Extent(c)
 	c02IntBounds(c)
+	c02Bounds(c, "C02")
 	c01Const(c, "C02/CONST")
-	c.NotDecide("termination / no panic / never consuming more than supplied, for all byte strings (needs relational bounds reasoning: deductive verification)", "accept ≡ reference decoder with identical fields",
-		"semantic validation details (reserved bits, flag consistency) beyond the encoder/decoder agreement on application messages")
-	c.Assume("Go's []byte→string conversion copies", "decodeHeader guarantees rl <= len(src)-hl (checked in header.go, relied on by EXTENT)")
+	c.NotDecide("accept ≡ reference decoder with identical fields",
+		"semantic validation details (reserved bits, flag consistency) beyond the encoder/decoder agreement on application messages",
+		"panics other than out-of-range index/slice, negative make/Grow sizes and encoding/binary preconditions (nil dereference, failed type assertion: see C14/ASSERT; explicit panic(): see C14/PANIC)")
+	c.Assume("Go's []byte→string conversion copies", "decodeHeader guarantees rl <= len(src)-hl (checked in header.go, relied on by EXTENT; proved by BOUNDS)",
+		"LIN: machine-integer overflow is not modelled (every tracked quantity is bounded by a buffer length or by 2^28); contracts of encoding/binary (UintN needs N/8 bytes, Uvarint returns n <= len(buf) and a value < 2^(7*len(buf))), bytes.Buffer (Reset: len 0; Grow(n): cap >= len+n, panics for n < 0), copy, append, make as listed in a_lin2.go")
 	return c02Explanation
 }
 
@@ -1538,4 +1542,107 @@ func (c *Ctx) loopBoundedByRl(fi *FuncInfo, t *Trace, di int, rlV types.Object) 
 		}
 	}
 	return false
+}
+
+// ---------------------------------------------------------------- C02/BOUNDS, C02/CONSUMED (LIN engine)
+
+// c02Bounds decides, for every input buffer, that no index / slice / make / library precondition on the
+// decode side of package packet can fail, and that every Decode returns 0 <= n <= len(src).
+func c02Bounds(c *Ctx, prefix string) {
+	rb := c.Rule(prefix+"/BOUNDS", "LIN", "every index, slice, make size and encoding/binary precondition reachable from a Decode method or DetectPacket is proved in range for all inputs (relational abstract interpretation over linear inequalities, callee summaries, inductive loop invariants)", 40)
+	rc := c.Rule(prefix+"/CONSUMED", "LIN", "every return of every Decode method reports 0 <= n <= len(src): never more bytes consumed than supplied, on success and on error", 14)
+	la := c.P.newLin()
+	type root struct {
+		f    *types.Func
+		name string
+	}
+	var roots []root
+	for _, pt := range c.packetTypes() {
+		if m := c.P.Method("packet", pt.name, "Decode"); m != nil {
+			roots = append(roots, root{m, "packet.(*" + pt.name + ").Decode"})
+		}
+	}
+	if g, ok := c.P.Global("packet", "DetectPacket").(*types.Func); ok {
+		roots = append(roots, root{g, "packet.DetectPacket"})
+	}
+	if m := c.P.Method("packet", "Decoder", "Read"); m != nil {
+		roots = append(roots, root{m, "packet.(*Decoder).Read"})
+	}
+	if len(roots) < 16 {
+		rb.Undecided("decode roots", 0, fmt.Sprintf("only %d of the 14 Decode methods + DetectPacket + Decoder.Read found", len(roots)))
+	}
+	rt := c.Rule(prefix+"/TERMINATES", "LIN", "every loop reachable from a Decode method, DetectPacket or Decoder.Read has a linear ranking function (decreases by >= 1 on every back edge, bounded below there); no recursion on the decode side", 4)
+	for _, rt := range roots {
+		sum := la.summary(rt.f, true)
+		if sum == nil {
+			rb.Undecided(rt.name, 0, "no body")
+			continue
+		}
+		c.Touch(rt.name)
+		if !strings.HasSuffix(rt.name, ".Decode") {
+			continue
+		}
+		// parameter 0 is the receiver, 1 the source buffer
+		if len(sum.params) < 2 || sum.params[1].kind != lkSeq {
+			rc.Undecided(rt.name+":n<=len(src)", sum.fi.Decl.Pos(), "unexpected signature")
+			continue
+		}
+		srcLen := sum.params[1].ln
+		bad := ""
+		for i, p := range sum.paths {
+			if len(p.results) < 1 || p.results[0] == nil || p.results[0].kind != lkInt {
+				bad = fmt.Sprintf("path %d returns an untracked count", i)
+				break
+			}
+			n := p.results[0].lin
+			if !la.prove(p.cons, n) {
+				bad = fmt.Sprintf("path %d of %d: n >= 0 not provable", i+1, len(sum.paths))
+				break
+			}
+			if !la.prove(p.cons, srcLen.sub(n)) {
+				bad = fmt.Sprintf("path %d of %d: n <= len(src) not provable", i+1, len(sum.paths))
+				break
+			}
+		}
+		rc.Check(rt.name+":0<=n<=len(src)", bad == "" && len(sum.paths) > 0, sum.fi.Decl.Pos(), len(sum.paths),
+			"a path may report more bytes consumed than were supplied (or a negative count): "+bad)
+	}
+	// helper functions reached through summaries
+	for f, s := range la.sums {
+		_ = f
+		c.Touch(s.fi.Name)
+	}
+	ord := map[string]int{}
+	sort.SliceStable(la.Obls, func(i, j int) bool {
+		if la.Obls[i].Fn != la.Obls[j].Fn {
+			return la.Obls[i].Fn < la.Obls[j].Fn
+		}
+		return la.Obls[i].Pos < la.Obls[j].Pos
+	})
+	for _, o := range la.Obls {
+		k := o.Fn + ":" + o.What
+		ord[k]++
+		key := k
+		if ord[k] > 1 {
+			key = fmt.Sprintf("%s#%d", k, ord[k])
+		}
+		switch {
+		case o.Term:
+			rt.Check(key, o.Proved, o.Pos, 1, "no linear ranking function among ±v, w−v, v−w was found: the loop may not terminate for some input")
+		case !o.Proved:
+			rb.Fail(key, o.Pos, 1, "not provable for all inputs: a buffer exists (as far as the analysis can tell) for which this operation is out of range and panics")
+		case o.Pending:
+			rb.Pass(key, o.Pos, 1, "not provable inside the helper alone; proved at every call site after substituting the arguments")
+		default:
+			rb.Pass(key, o.Pos, 1, "proved from the path constraints (Fourier–Motzkin refutation)")
+		}
+	}
+	seen := map[string]bool{}
+	for _, u := range la.Undec {
+		if !seen[u] {
+			seen[u] = true
+			rb.Undecided("unsupported construct: "+u, 0, u)
+		}
+	}
+	c.Notes = append(c.Notes, fmt.Sprintf("LIN: %d functions summarised, %d paths, %d obligations, %d Fourier–Motzkin combination steps", len(la.sums), la.Paths, len(la.Obls), la.FM))
 }
